@@ -232,3 +232,50 @@ func HasRecoverGuard(fn *ssa.Function) *ssa.Function {
 	}
 	return nil
 }
+
+// eqConst splits an EQ atom into (term, constant) when exactly one side is an
+// integer literal or a const(...) term.
+func eqConst(a Atom) (string, string, bool) {
+	isK := func(s string) bool {
+		if s == "" {
+			return false
+		}
+		if strings.HasPrefix(s, "const(") {
+			return true
+		}
+		for i, r := range s {
+			if (r < '0' || r > '9') && !(i == 0 && r == '-') {
+				return false
+			}
+		}
+		return true
+	}
+	switch {
+	case isK(a.A) && !isK(a.B):
+		return a.B, a.A, true
+	case isK(a.B) && !isK(a.A):
+		return a.A, a.B, true
+	}
+	return "", "", false
+}
+
+// Deref follows loads of spilled locals (result parameters in functions with
+// defer, address-taken variables) to the value stored, when it is unambiguous.
+func (t *Terms) Deref(v ssa.Value) ssa.Value {
+	for i := 0; i < 8; i++ {
+		u, ok := v.(*ssa.UnOp)
+		if !ok {
+			return v
+		}
+		al, ok := u.X.(*ssa.Alloc)
+		if !ok {
+			return v
+		}
+		sv := t.reachingStore(al, u)
+		if sv == nil {
+			return v
+		}
+		v = sv
+	}
+	return v
+}
